@@ -408,9 +408,24 @@ def check_other(case):
     got = ssa.verify_(msg, x, ssa.Sig(r, s, ec, check_validity=False), hf)
     if got is not want or (mut == "none" and not got):
         raise Violation(f"other_curves:verdict:{mut}:lib={got}:ref={want}", f"{case['curve']}:{case['hf']}")
+    # the key as the octets of its x (bytes and hex): the same verdict; and as the octets of x + k p where they still fit the curve's p_size octets (the
+    # brainpool curves, secp521r1, secp112r2 have room above p): a number that is no x-coordinate of anything -- lift_x fails -- so the verdict is False
+    size = ec.p_size
+    spellings = [("octets", x.to_bytes(size, "big"), want), ("hex", x.to_bytes(size, "big").hex(), want)]
+    k_max = (256**size - 1 - x) // p
+    if k_max >= 1:
+        k = 1 + case["q"] % min(k_max, 3)
+        spellings.append((f"octets+{'p' if k == 1 else 'kp'}", (x + k * p).to_bytes(size, "big"), False))
+    for how, key, expect in spellings:
+        try:
+            got_k = ssa.verify_(msg, key, ssa.Sig(r, s, ec, check_validity=False), hf)
+        except Exception as e:  # noqa: BLE001  a bool-returning verifier is total over its declared types
+            raise Violation(f"other_curves:verify-raised:{how}:{type(e).__name__}", f"{case['curve']}: {e}") from e
+        if got_k is not expect:
+            raise Violation(f"other_curves:verdict:key-as-{how}:lib={got_k}:ref={expect}", f"{case['curve']}:{case['hf']} mut={mut}")
     if ssa.sign_(msg if mut != "msg" else msg[:-1], q, aux, ec, hf) != sig:
         raise Violation("other_curves:not-deterministic", "")
-    return Outcome(True, (case["curve"], case["hf"], mut))
+    return Outcome(True, (case["curve"], case["hf"], mut, "room-above-p" if k_max >= 1 else "no-room-above-p"))
 
 
 # ---------------------------------------------------------------- codec
